@@ -347,10 +347,53 @@ func runC10(p *engine.Prog, r *engine.Report) {
 				}
 			}
 		}
-		ok := cr != nil && ci != nil && engine.InstrDominates(cr, ci)
-		if ok {
+		// a step written out in UpdateTargets itself is represented by its stores
+		var rebuildAt, idleAt []ssa.Instruction
+		if cr != nil {
+			rebuildAt = []ssa.Instruction{cr}
+		}
+		if ci != nil {
+			idleAt = []ssa.Instruction{ci}
+		}
+		for _, in := range allInstrs(up) {
+			if st, isSt := in.(*ssa.Store); isSt {
+				if fa, isFa := st.Addr.(*ssa.FieldAddr); isFa {
+					if rebuildFn == up && engine.FieldOf(fa) == fStatus {
+						rebuildAt = append(rebuildAt, st)
+						cr = st
+					}
+					if idleFn == up && engine.FieldOf(fa) == fIdleAt {
+						idleAt = append(idleAt, st)
+						ci = st
+					}
+				}
+			}
+		}
+		ok := len(rebuildAt) > 0 && len(idleAt) > 0
+		for _, a := range rebuildAt {
+			for _, b := range idleAt {
+				if !engine.InstrDominates(a, b) {
+					ok = false
+				}
+			}
+		}
+		if ok && idleFn != up {
 			for _, ret := range returnsOf(up) {
 				if !engine.InstrDominates(ci, ret) {
+					ok = false
+				}
+			}
+		}
+		if ok && idleFn == up {
+			// the idle decision (the test of the status map's size) is on every path to every return
+			for _, ret := range returnsOf(up) {
+				dom := false
+				for _, a := range rebuildAt {
+					if engine.InstrDominates(a, ret) {
+						dom = true
+					}
+				}
+				if !dom {
 					ok = false
 				}
 			}
